@@ -12,7 +12,7 @@ from harness.sshpair import Pair, NoAuthServer, PairClient
 from harness.vloop import Deadlock, _EOF
 
 TYPES = {90: 'OPEN', 91: 'CONF', 92: 'FAIL', 98: 'REQ', 99: 'SUCC',
-         100: 'REQFAIL', 96: 'EOF', 97: 'CLOSE', 1: 'DISC'}
+         100: 'REQFAIL', 94: 'DATA', 96: 'EOF', 97: 'CLOSE', 1: 'DISC'}
 LEGAL_AFTER_MADE = {'session_started', 'eof_received', 'connection_lost',
                     'data_received'}
 
@@ -24,6 +24,8 @@ class World:
         self.log = {x: {c: [] for c in self.chans} for x in 'cs'}
         self.chan = {x: {} for x in 'cs'}
         self.tasks = {}          # name -> asyncio.Task
+        self.closed_by_app = set()   # (side, ch) on which close()/abort() was called
+        self.close_seen = set()      # (side, ch) that received the peer's CLOSE
         self.sent_opens = []     # channel ids in the order OPEN was sent (= arrives)
         w = self
 
@@ -39,6 +41,9 @@ class World:
 
                 def exec_requested(self, command):
                     return True
+
+                def data_received(self, data, datatype):
+                    w.log[side][ch].append('data_received')
 
                 def eof_received(self):
                     w.log[side][ch].append('eof_received')
@@ -92,9 +97,17 @@ class World:
             p.call(start)
         elif k == 'weof':
             p.call(self.chan[lbl[1]][lbl[2]].write_eof)
+        elif k == 'wdata':
+            p.call(self.chan[lbl[1]][lbl[2]].write, b'd')
+        elif k == 'pause':
+            p.call(self.chan[lbl[1]][lbl[2]].pause_reading)
+        elif k == 'resume':
+            p.call(self.chan[lbl[1]][lbl[2]].resume_reading)
         elif k == 'close':
+            self.closed_by_app.add((lbl[1], lbl[2]))
             p.call(self.chan[lbl[1]][lbl[2]].close)
         elif k == 'abort':
+            self.closed_by_app.add((lbl[1], lbl[2]))
             p.call(self.chan[lbl[1]][lbl[2]].abort)
         elif k == 'connclose':
             p.call(conn[lbl[1]].close)
@@ -123,6 +136,9 @@ class World:
         if typed:
             took = p.deliver(x, lambda t: t in TYPES, count=len(typed))
             got = [TYPES[t] for t, _, _ in took if t in TYPES]
+            for t, _, pl in took:
+                if t == 97:
+                    self._note_close(x, int.from_bytes(pl[1:5], 'big'))
             if got != typed:
                 return f'delivered {got} but the model expected {typed}'
         if 'LOST' in wants:
@@ -131,6 +147,12 @@ class World:
                 p.deliver_all(x)
             p.loop.run_callback(dst.deliver)
         return None
+
+    def _note_close(self, x, rchan):
+        y = 's' if x == 'c' else 'c'
+        for c, chan in self.chan[y].items():
+            if chan._recv_chan == rchan:
+                self.close_seen.add((y, c))
 
     # ---- projection ----
     def observe(self):
@@ -149,7 +171,8 @@ class World:
         obs['states'] = {}
         for x in 'cs':
             for c, chan in self.chan[x].items():
-                obs['states'][(x, c)] = (chan._send_state, chan._recv_state)
+                obs['states'][(x, c)] = (chan._send_state, chan._recv_state,
+                                         len(chan._recv_buf))
         obs['pending'] = {x: [TYPES.get(t, t) for t, _, _ in p.queue[x]
                               if t in TYPES] for x in 'cs'}
         return obs
@@ -201,6 +224,19 @@ class World:
                                f'channel(s) still registered on closed '
                                f'connection {x}')
         else:
+            # closed locally AND the peer's CLOSE arrived: nothing is left to
+            # wait for, so wait_closed() is done and the session was told
+            for (x, c) in self.closed_by_app & self.close_seen:
+                t = self.tasks.get(f'wait_closed:{x}:{c}')
+                if t is not None and not t.done():
+                    bad.append(f'AllWaitersResolved: wait_closed() on channel '
+                               f'{x}{c} still pending although the channel '
+                               f'was closed locally and the peer\'s CLOSE '
+                               f'has arrived')
+                if 'connection_lost' not in self.log[x][c]:
+                    bad.append(f'CloseOnceAndLast: session {x}{c} never got '
+                               f'connection_lost although the channel is '
+                               f'closed in both directions: {self.log[x][c]}')
             for c in self.chans:
                 t = self.tasks.get(f'create:{c}')
                 if t is not None and not t.done():
@@ -217,7 +253,9 @@ class World:
             for x in 'cs':
                 dst = p.st if x == 'c' else p.ct
                 if p.queue[x]:
-                    p.deliver_all(x)
+                    for t, _, pl in p.deliver_all(x):
+                        if t == 97:
+                            self._note_close(x, int.from_bytes(pl[1:5], 'big'))
                     moved = True
                 elif dst.inq and not dst.closed:
                     p.loop.run_callback(dst.deliver)
@@ -228,6 +266,7 @@ class World:
 
 
 def model_obs(st, chans):
+    st = st['s']
     def at(f, side, ch=None):
         v = f[side]
         if ch is None:
@@ -247,7 +286,10 @@ def model_obs(st, chans):
     return obs
 
 
-def replay(steps, chans, reject=()):
+def replay(steps, chans, reject=(), final=None):
+    """steps: [(label, state-or-None)].  With states the implementation is
+    compared with the model after every step; `final` (a model state) is
+    compared at the end of the script."""
     w = World(chans, reject).start()
     res = {'diverged': None, 'l1': [], 'script': []}
     try:
@@ -265,13 +307,19 @@ def replay(steps, chans, reject=()):
             while j < n and steps[j][0][0] == 'run':
                 j += 1
             last = steps[j - 1][1]
-            if last['ready'] or last['chunk'][1]:
+            if last is not None and (last['s']['ready'] or
+                                     last['s']['chunk'][1]):
                 break                   # cut by the depth bound mid-step
             err = w.do(lbl)
             res['script'].append(lbl)
             if err:
                 res['diverged'] = f'step {i} {lbl}: {err}'
                 break
+            if last is None and i + (j - i) >= n and final is not None:
+                last = {'s': final}
+            if last is None:
+                i = j
+                continue
             got = w.observe()
             want = model_obs(last, chans)
             for key in want:
@@ -281,17 +329,19 @@ def replay(steps, chans, reject=()):
                     break
             # channel states where the code has a handle
             if not res['diverged']:
-                for (x, c), (s_, r_) in got['states'].items():
-                    ms = last['ss'][x]
-                    mr = last['rs'][x]
-                    ms = ms[c - 1] if isinstance(ms, list) else ms[c]
-                    mr = mr[c - 1] if isinstance(mr, list) else mr[c]
-                    reg = last['reg'][x]
-                    reg = reg[c - 1] if isinstance(reg, list) else reg[c]
-                    if reg and (s_, r_) != (ms, mr):
+                ls = last['s']
+
+                def at(f, x, c):
+                    v = ls[f][x]
+                    return v[c - 1] if isinstance(v, list) else v[c]
+
+                for (x, c), (s_, r_, nb) in got['states'].items():
+                    want_st = (at('ss', x, c), at('rs', x, c),
+                               at('rbufN', x, c))
+                    if at('reg', x, c) and (s_, r_, nb) != want_st:
                         res['diverged'] = (f'step {i} {lbl}: channel {x}{c} '
-                                           f'states code={(s_, r_)} model='
-                                           f'{(ms, mr)}')
+                                           f'states code={(s_, r_, nb)} '
+                                           f'model={want_st}')
                         break
             if res['diverged']:
                 break
